@@ -27,7 +27,7 @@ PROPERTIES = {
                  "(configuration, schedule) / (scenario, outcome vector); non-trivial = at least two context switches / at least three calls"),
         "modelled_not_verified": [
             "M1: sync.Mutex gives mutual exclusion; the switch under statusLock is one atomic step; M3: goroutine scheduling = arbitrary interleaving of the instrumented steps "
-            "(the reads of s.Context / s.clusterContext in stop are unsynchronised with their writes in Start: the model treats them as sequentially consistent steps)",
+            "(the reads of s.Context / s.clusterContext in stop take place after stop's own critical section, the writes inside Start's: ordered by statusLock)",
             "M6: virtual time; time.After(d) fires no earlier than d",
             "termination of the actor tree after Kill(root) (closing guardClosedSignal) is an environment event (C06's concern); cluster Leave completion is an environment event (no timeout in the code)",
             "the call-level specification Lifecycle.admissible (used by the real-time tier) shares status_after / the result tables with the theorems but is not itself proved equivalent to the micro-step model",
@@ -42,8 +42,10 @@ META = {
                  "System.Start/stop and the context-guard goroutine: mutual exclusion and bounded holding of statusLock, progress (an unfinished thread can step, "
                  "or waits for a lock whose holder can step, or waits for the environment only), a strictly decreasing per-thread rank (at most 20 steps per call), "
                  "return values as a function of the linearisation order of the status switches, one-way status, exactly one effective stop / one Kill(root), "
-                 "cancel = Stop, termination of the guard goroutine once the context is cancelled. REFUTED with witness: Stop terminates every actor "
-                 "(a Stop landing between Start's status switch and the assignment of system.Context returns nil without killing or cancelling anything)."),
+                 "cancel = Stop, termination of the guard goroutine once the context is cancelled, Stop terminates the system (every stop that returns nil "
+                 "while a root exists issued exactly one Kill(root), cancelled the context and saw guardClosedSignal closed; the kill is skipped only when "
+                 "root creation itself failed). Start's critical section (status switch + whole start-up chain under statusLock, /repo commit 0843af8) is modelled; "
+                 "the monitor stop-skipped-kill-and-cancel stays armed against the Start/Stop race that commit repaired."),
         "design_ref": "DESIGN.md section 4 C07",
         "note": ("Trusted: Coq kernel; extraction; AST instrumenter (profile system) + controlled scheduler (harness/instr, harness/vsched); the harness's "
                  "goroutine-dump based leak monitor; M1, M3, M6; fairness of the Go scheduler for liveness."),
